@@ -265,7 +265,63 @@ fn gen_c08(r: &mut Rng, thorough: bool) -> Vec<Op> {
     let extreme = r.chance(1, 6);
     layout(r, &mut l, &mut ops, extreme);
     let n = if thorough { r.range(10, 80) } else { r.range(10, 40) };
-    mem_ops(r, &l, &mut ops, n);
+    if r.chance(1, 2) {
+        mem_ops(r, &l, &mut ops, n);
+        return ops;
+    }
+    // the layout keeps changing under the accesses: areas are emptied, regrown, and new ones are created
+    // where old ones used to be (memory must stay one consistent byte store through all of it)
+    let mut left = n;
+    while left > 0 {
+        let burst = r.range(1, 6).min(left);
+        mem_ops(r, &l, &mut ops, burst);
+        left -= burst;
+        if l.areas.is_empty() {
+            continue;
+        }
+        let i = r.usize(l.areas.len());
+        let a = l.areas[i];
+        match r.below(6) {
+            0 => {
+                ops.push(Op::Resize { start: a.0, new_len: 0 });
+                l.areas[i].1 = 0;
+            }
+            1 => {
+                let nl = r.range(1, 0x200);
+                ops.push(Op::Resize { start: a.0, new_len: nl });
+                if !l.areas.iter().enumerate().any(|(j, b)| j != i && intersects(a.0, nl, b.0, b.1)) {
+                    l.areas[i].1 = nl;
+                }
+            }
+            2 => {
+                // a new area that reaches from below into the place of an (emptied) area
+                let len = r.range(0x40, 0x200);
+                if a.0 < len {
+                    continue;
+                }
+                let start = a.0 - r.range(1, len - 1);
+                ops.push(Op::InitZero { start, len, named: false });
+                l.add(start, len);
+            }
+            3 => {
+                let len = r.range(1, 0x100);
+                let start = a.0 + a.1;
+                ops.push(Op::InitArea { start, len, seed: r.next(), named: false });
+                l.add(start, len);
+            }
+            4 => {
+                ops.push(Op::Resize { start: a.0, new_len: a.1 / 2 });
+                l.areas[i].1 = a.1 / 2;
+            }
+            _ => {
+                ops.push(Op::Resize { start: a.0, new_len: a.1 + r.range(1, 0x80) });
+                let nl = a.1 + 0x80;
+                if !l.areas.iter().enumerate().any(|(j, b)| j != i && intersects(a.0, nl, b.0, b.1)) {
+                    l.areas[i].1 = a.1;
+                }
+            }
+        }
+    }
     ops
 }
 
